@@ -527,5 +527,8 @@ def run(chk, fb, tier):
     _d2(chk, fb)
     _d3(chk, fb)
     _d4(chk, fb)
+    from . import copyrule
+    chk.rule("DC", "copy constructor and copy assignment copy the same members; operator= empties a member container before re-populating it; copy functions never assign through a stored shared pointer")
+    copyrule.check(chk, fb, "DC", lambda c: c["file"].endswith(("Bpp/Numeric/Function/ReparametrizationFunctionWrapper.h", "Bpp/Numeric/TransformedParameter.h")), floor=1)
     chk.assume("atan(tan(u)) = u: the argument stays on the principal branch for values strictly inside the interval")
     chk.assume("region tests are mapped to x-side regions by the rule table in Formula.region; scale > 0; lower bound < upper bound")
